@@ -26,4 +26,15 @@ CHECKS = {
               'alignments, all lengths 0..64, extension characters at every offset, random texts and octet strings.'),
         note=COMMON_NOTE + 'Spec/Packing.lean states 3GPP TS 23.038 6.1.2.1.1 as a radix change (hand-written). int(x/8) float division modelled as integer division.',
         technique='Lean 4 theorems (loop invariant by induction, 7-way case split + omega for the bit arithmetic); differential correspondence'),
+    'C17': dict(
+        text=('Proof. Props/C17.lean over the model of datetime_to_smpp_time / smpp_time_to_datetime / '
+              'FixedOffset.from_timezone (after the repair dc4f5e2): the absolute format equals SMPP 3.4 7.1.1 '
+              'YYMMDDhhmmsstnnp and reads back with identical calendar fields and UTC offset for every date of '
+              '2000-2099, every quarter-hour offset in +-12 h or naive, every tenth; the relative format equals '
+              'YYMMDDhhmmss000R with the 365/30 decomposition and reads back to the second for every duration '
+              '0..63 weeks; longer durations raise ValueError. Finite digit/offset facts by decide +kernel over the '
+              'whole range, the rest by omega. Tied to protocol.py/utils.py by sweeps over offsets, month ends, '
+              'tenths, all day counts, and malformed strings for the decoder.'),
+        note=COMMON_NOTE + 'datetime/timedelta/strftime/int() of CPython are modelled (fields, two-digit formatting, ASCII int parsing), swept, not verified. A tzinfo is reduced to its utcoffset in seconds.',
+        technique='Lean 4 theorems (decide +kernel on finite digit tables, omega) on a hand-written model; differential correspondence'),
 }
